@@ -110,6 +110,9 @@ func (verifStoreObj) GetValidator(name string) validate.Validator { return nil }
 func (verifStoreObj) GetMediaHandler() media.Handler             { return verifMediaHandler }
 func (verifStoreObj) UseMediaHandler(name, config string) error  { return nil }
 
+// hand-overs to the account-management entry points recorded by the stubs of accstub.go (when that file is part of the unit)
+var verifAccCalls []string
+
 // media handler handed out by the fake store (nil unless a harness installs one)
 var verifMediaHandler media.Handler
 
